@@ -328,9 +328,17 @@ func hostile(t *rapid.T) Case {
 			bl = rapid.IntRange(129, 255).Draw(t, "biglen")
 		}
 		p := make([]byte, bl)
-		p[0] = 1
+		origin := "hostile:bigint"
+		if rapid.Bool().Draw(t, "padded") {
+			// the declared length counts, not the value: a small number padded with
+			// leading zeros to more than the limit is as over-long as a large one
+			p[bl-1] = 1
+			origin = "hostile:bigint-zero-padded"
+		} else {
+			p[0] = 1
+		}
 		w.BigRaw(bl, p)
-		return Case{Target: "bigint", Data: gen.HexOf(w.B), Origin: "hostile:bigint", Expect: expect}
+		return Case{Target: "bigint", Data: gen.HexOf(w.B), Origin: origin, Expect: expect}
 	case 7:
 		var w wirefmt.W
 		w.Params(wirefmt.ParamsOpts{ChallengeDuration: 1, Parts: n, DeclParts: -1, EmptyMapAt: -1, NonceLen: 4})
